@@ -43,6 +43,9 @@ size_t nondet_size_t(void);
 /* A std::string is modelled as a buffer of capacity VERIF_STRCAP with an explicit length.
  * Embedded NULs are allowed (as in std::string).  p[len] == 0 is maintained, as std::string does. */
 typedef struct vstr { char *p; int len; } vstr;
+/* std::vector<real> / std::vector<int> data members (R17): pointer + ghost length */
+typedef struct vvec_d { double *p; int n; } vvec_d;
+typedef struct vvec_i { int *p; int n; } vvec_i;
 #define VSTR_NPOS (~(size_t)0)
 
 static inline size_t vstr_length(const vstr *s) { return (size_t)s->len; }
